@@ -28,16 +28,17 @@ Print Assumptions C18_alone_or_together.
 
 (* The default rule set is the explicit list of the specified rules, whose names are distinct;
    so the previous theorem applies to every default rule. *)
-Theorem C18_default_is_explicit : forall s doc,
-  validate s doc = validate_with s doc (default_rules s doc)
-  /\ NoDup (map rinst_name (default_rules s doc))
-  /\ NoDup (map rinst_name (all_rules s doc)).
+Theorem C18_default_is_explicit : forall pre s doc,
+  validate s doc = validate_with s doc (default_rules false s doc)
+  /\ validate_again s doc = validate_with s doc (default_rules true s doc)
+  /\ NoDup (map rinst_name (default_rules pre s doc))
+  /\ NoDup (map rinst_name (all_rules pre s doc)).
 Proof.
-  intros s doc. split; [reflexivity|]. split; [apply default_rules_names_nodup|apply all_rules_names_nodup].
+  intros pre s doc. split; [reflexivity|]. split; [reflexivity|]. split; [apply default_rules_names_nodup|apply all_rules_names_nodup].
 Qed.
 Print Assumptions C18_default_is_explicit.
 
-Theorem C18_default_rule_alone : forall s doc r, In r (default_rules s doc) ->
+Theorem C18_default_rule_alone : forall s doc r, In r (default_rules false s doc) ->
   errs_of (rinst_name r) (validate s doc) = validate_with s doc [r].
 Proof.
   intros s doc r Hin. apply C18_alone_or_together; [apply default_rules_names_nodup|exact Hin].
